@@ -500,7 +500,7 @@ func runC13(c *Cfg) {
 		runC13Race(c)
 		return
 	}
-	nh := c.Pick(40000, 600000)
+	nh := c.Pick(40000, 2000000)
 	var overlapsTotal, unknown int64
 	for i := 0; i < nh; i++ {
 		if !c.Mine(i) {
